@@ -241,3 +241,68 @@ def run_d(prog, res):
                             (fn.name, "updates" if st[0] else "does not update", "modifies" if st[1] else "does not modify"),
                             unit=fn.unit.display, path=["B%s" % b for b in ex.path_to(key)]))
     return stat
+
+
+# ------------------------------------------------------------------ C15.e
+def run_e(prog, res, floor=1):
+    """work-budget threading: a self-recursive function that returns (what is left of) one of its own
+    parameters and passes that parameter on in the same position must store the result of every such
+    recursive call back into the parameter (or return it at once) - otherwise the work done in the
+    sub-call is not charged and the 'limit reached' answer of the sub-call is lost"""
+    stat = res.stat("C15.e", "self-recursive functions that return what is left of a budget parameter write every recursive "
+                    "call's result back into that parameter", floor=floor)
+    for fn in prog.all_funcs():
+        if not fn.blocks or fn.name not in ("sexp_equalp_bound", "hash_one") and not fn.name.endswith("_bound"):
+            continue
+        calls = [i for i, nd in enumerate(fn.nodes) if nd["k"] == "call" and nd.get("o") == fn.name]
+        if not calls:
+            continue
+        rets = [fn.strip(nd["c"][0]) for nd in fn.nodes if nd["k"] == "ret" and nd.get("c")]
+        for k, vid in enumerate(fn.params):
+            # the parameter is returned (as such, or as an arm of a conditional) ...
+            def returns_p(r):
+                rn = fn.nodes[r]
+                if rn["k"] == "ref":
+                    return rn.get("d") == vid
+                if rn["k"] == "cond":
+                    return returns_p(fn.strip(rn["c"][1])) or returns_p(fn.strip(rn["c"][2]))
+                return False
+            if not any(returns_p(r) for r in rets):
+                continue
+            # ... and handed on in its own position
+            passing = []
+            for c in calls:
+                args = fn.nodes[c]["c"][1:]
+                if k < len(args):
+                    a = fn.strip(args[k])
+                    if fn.nodes[a]["k"] == "ref" and fn.nodes[a].get("d") == vid:
+                        passing.append(c)
+            if not passing:
+                continue
+            pname = fn.vars[vid]["n"]
+            for c in passing:
+                stat.sites += 1
+                stat.obligations += 1
+                p = fn.parent(c)
+                x = c
+                while p is not None and fn.nodes[p]["k"] in ("paren", "cast"):
+                    x, p = p, fn.parent(p)
+                ok = False
+                if p is not None:
+                    pn = fn.nodes[p]
+                    if pn["k"] == "ret":
+                        ok = True
+                    elif pn["k"] == "bin" and pn["o"] == "=" and pn["c"][1] == x:
+                        l = fn.strip(pn["c"][0])
+                        ok = fn.nodes[l]["k"] == "ref" and fn.nodes[l].get("d") == vid
+                if ok:
+                    stat.discharged += 1
+                    stat.sample({"function": fn.name, "budget": pname, "where": fn.where(c)})
+                else:
+                    res.add(Finding("C15", "C15.e.budget-not-threaded", fn.name, "budget %s" % pname, fn.where(c),
+                                    "%s returns what is left of `%s` and passes `%s` to its recursive call here, but does not "
+                                    "store the call's result back into `%s`: the work done in the sub-comparison is not charged "
+                                    "(exponential time on shared structure, no termination on cycles through this slot) and a "
+                                    "'limit reached' answer of the sub-call is taken for 'equal'" %
+                                    (fn.name, pname, pname, pname), unit=fn.unit.display))
+    return stat
